@@ -225,11 +225,14 @@ func streams() []stream {
 var validEntries = []string{
 	"10.1.2.3", "10.0.0.0/8", "10.1.2.3/32", "10.1.2.3/8", "10.1.2.2/31", "0.0.0.0/0", "172.16.0.0/12", "192.168.0.0/16",
 	"::1", "::/0", "fe80::/64", "2001:db8::/32", "2001:db8::7/128", "203.0.113.7",
+	// IPv6 prefixes that do not end on a byte boundary
+	"fc00::/7", "fe80::/10", "2001:db8::/33", "2001:db8::6/127",
 }
 var otherEntries = []string{
 	"", "10.0.0", "10.0.0.256", "10.0.0.0/33", "::1/129", "abc", "10.0.0.1:80", "[::1]", "10.0.0.0/-1", "10.0.0.0/", "/8", "010.0.0.1",
 	"::ffff:10.1.2.3", "::ffff:10.0.0.0/104", "::ffff:a01:203", "::ffff:0:0/96", "0:0:0:0:0:ffff:10.1.2.3",
 	"fe80::1%eth0", "10.0.0.0/08", " 10.1.2.3",
+	"::g", "1::2::3", "2001:db8::/129", "2001:db8::/-1", "fe80::/1O", "::/", "12345::", "1:2:3:4:5:6:7:8:9", "::ffff:10.1.2.3/128",
 }
 
 func peerTexts() []string {
@@ -239,6 +242,9 @@ func peerTexts() []string {
 		"0.0.0.0", "255.255.255.255", "203.0.113.7", "203.0.113.8",
 		"::1", "::", "::2", "fe80::1", "fe80::1%eth0", "fe80:0:0:1::1", "fe80::ffff:ffff:ffff:ffff%lo", "2001:db8::7", "2001:db8:ffff:ffff:ffff:ffff:ffff:ffff", "2001:db9::",
 		"::ffff:10.1.2.3", "::ffff:11.0.0.1", "::ffff:a01:203", "::ffff:10.1.2.3%eth0", "::10.1.2.3",
+		// both sides of the IPv6 prefixes above
+		"fbff:ffff::1", "fc00::", "fdff:ffff:ffff:ffff:ffff:ffff:ffff:ffff", "fe00::", "fe7f:ffff::1", "fe80::", "febf:ffff::1%eth0", "fec0::",
+		"2001:db8:7fff:ffff::1", "2001:db8:8000::", "2001:db8::6", "2001:db8::8", "2001:db8::5",
 	}
 }
 
@@ -461,8 +467,17 @@ func TestVerif(t *testing.T) {
 		for _, a := range all {
 			lists = append(lists, []string{a})
 		}
+		// entries added by the quantifier audit are paired (in quick) with three partners only, in both orders
+		late := map[string]bool{}
+		for _, e := range []string{"fc00::/7", "fe80::/10", "2001:db8::/33", "2001:db8::6/127", "::g", "1::2::3", "2001:db8::/129", "2001:db8::/-1", "fe80::/1O", "::/", "12345::", "1:2:3:4:5:6:7:8:9", "::ffff:10.1.2.3/128"} {
+			late[e] = true
+		}
+		partner := map[string]bool{"10.0.0.0/8": true, "::1": true, "abc": true}
 		for _, a := range all {
 			for _, b := range all {
+				if r.Quick() && (late[a] || late[b]) && !((late[a] && partner[b]) || (late[b] && partner[a])) {
+					continue
+				}
 				lists = append(lists, []string{a, b})
 			}
 		}
